@@ -507,6 +507,13 @@ pub proof fn lemma_rdot_split(a: Seq<F>, b: Seq<F>, k: int)
         assert(rdot(a, b, 0) == 0real && rdot(tail(a), tail(b), 0) == 0real);
     }
 }
+// small algebra steps, each its own nonlinear query (larger identities made the nonlinear solver run away under some seeds)
+pub proof fn lemma_dist(k: real, a: real, b: real) ensures k * (a + b) == k * a + k * b { assert(k * (a + b) == k * a + k * b) by(nonlinear_arith); }
+pub proof fn lemma_mul_swap(a: real, c: real, p: real) ensures a * (c * p) == c * (a * p)
+{
+    let cp = c * p; let ap = a * p;
+    assert(a * cp == c * ap) by(nonlinear_arith) requires cp == c * p, ap == a * p;
+}
 // <a, c1 p + c2 q> = c1 <a, p> + c2 <a, q>
 pub proof fn lemma_rdot_lin(a: Seq<F>, x: Seq<F>, p: Seq<F>, q: Seq<F>, c1: real, c2: real, k: int)
     requires 0 <= k, forall|i: int| 0 <= i < k ==> #[trigger] x[i].v() == c1 * p[i].v() + c2 * q[i].v(),
@@ -518,11 +525,11 @@ pub proof fn lemma_rdot_lin(a: Seq<F>, x: Seq<F>, p: Seq<F>, q: Seq<F>, c1: real
         let av = a[k - 1].v(); let pv = p[k - 1].v(); let qv = q[k - 1].v(); let xv = x[k - 1].v();
         let P = rdot(a, p, k - 1); let Q = rdot(a, q, k - 1);
         assert(xv == c1 * pv + c2 * qv);
-        assert(av * (c1 * pv + c2 * qv) == c1 * (av * pv) + c2 * (av * qv)) by(nonlinear_arith);
-        assert(c1 * (P + av * pv) == c1 * P + c1 * (av * pv)) by(nonlinear_arith);
-        assert(c2 * (Q + av * qv) == c2 * Q + c2 * (av * qv)) by(nonlinear_arith);
+        lemma_dist(av, c1 * pv, c2 * qv);
+        lemma_mul_swap(av, c1, pv); lemma_mul_swap(av, c2, qv);
+        lemma_dist(c1, P, av * pv); lemma_dist(c2, Q, av * qv);
     } else {
-        assert(c1 * 0real + c2 * 0real == 0real) by(nonlinear_arith);
+        assert(c1 * 0real == 0real && c2 * 0real == 0real) by(nonlinear_arith);
     }
 }
 pub proof fn lemma_rdot_sym(a: Seq<F>, b: Seq<F>, k: int)
